@@ -533,6 +533,17 @@ def fromIterMatrix (rowName colName : String) (rows cols : Nat) (recs : List (Re
       .ok ⟨[(rowName, rows), (colName, cols)], numbers, history⟩
     else .error .shape
 
+/-- `from_iters` (iterators.rs:633, 715): `collect_into_n_components` streams the arrays and keeps,
+    for every position `n` of the array, what `collect_into_components` keeps; `columns[n]` are
+    the `n`-th records of every step. -/
+def fromItersTensor (shape : Shape String) (columns : List (List (Rec R))) :
+    List (Except IterError (Cont R)) :=
+  columns.map (fromIterTensor shape)
+
+def fromItersMatrix (rowName colName : String) (rows cols : Nat) (columns : List (List (Rec R))) :
+    List (Except IterError (Cont R)) :=
+  columns.map (fromIterMatrix rowName colName rows cols)
+
 /-- Applying a function on records to every element in order (`iter.map(fx)` consumed by
     `collect`); the function may use the tapes. -/
 def mapRecs (f : Rec R → World R → Rec R × World R) : List (Rec R) → World R → List (Rec R) × World R
